@@ -272,6 +272,27 @@ def r2(ctx):
                      witness=norm(s), line=s.lineno)
     if not found:
         ctx.holds("C14.R2", "%s:deserialize_value" % M, "no stream-sized allocation in %d decoder functions" % len(D))
+    # no expansion step between the peer's bytes and the decoder: every cap of the decoder (MAX_BYTES_LENGTH, MAX_ARRAY_LENGTH, "bounded by
+    # consumption") counts bytes of the stream it is given - if that stream is the output of a decompressor, a kilobyte of hostile input is
+    # a megabyte of decoder input.  loadz / dumpz are the explicit entry points for trusted local data and must not be reachable from the
+    # functions that decode peer data.
+    EXPAND = ("gzip", "zlib", "bz2", "lzma", "zipfile", "tarfile", "brotli", "zstd")
+    exp = []
+    for fi in D:
+        for c in walk_own(fi.node):
+            if isinstance(c, ast.Call):
+                t = norm(c.func)
+                head = t.split(".")[0]
+                rn = ctx.repo.resolve_name(fi.module, head)
+                target = rn[1] if rn is not None and rn[0] in ("extmodule", "external") else ""
+                if target.split(".")[0] in EXPAND or t.split(".")[-1] in ("decompress", "decompressobj", "GzipFile"):
+                    exp.append((fi, c))
+    for fi, c in exp:
+        ctx.violated("C14.R2", fi, c, "a decompressor is reachable from the functions that decode peer data: the decoder's length caps and its consumption bound count decompressed bytes, "
+                     "a small hostile input expands to a large decoder input (allocation and work far beyond a small multiple of the received size)", witness=norm(c)[:80], line=c.lineno)
+    if not exp:
+        ctx.holds("C14.R2", "%s:deserialize_value" % M, "no decompression step is reachable from the peer-data entry points (%d decoder functions)" % len(D),
+                  "decoder input size = received size")
     # positive control
     tree = ast.parse(SINK_CONTROL)
     fn = tree.body[0]
